@@ -13,6 +13,10 @@ In `pipe` configurations the fault menu of every draw() additionally holds a *pe
 failure: the k-th write/flush of the draw and every later one raise BrokenPipeError (or ValueError of a
 closed stream), for every k - clean-up code that writes must not keep the rest of the clean-up from running.
 
+`env="warn-error"` configurations run every operation with TermImageUserWarning turned into an error and
+`native_anim_max_bytes = 1` (iterm2 native animation then fails after the library opened the raw file);
+`run_two_url` opens two URL images whose URLs share a base name (different contents) side by side.
+
 Operations: format(spec) / str / draw still / draw animated (repeat 1, 2; repeat=-1 cut by Ctrl-C at a
 frame delay; virtual stdout + clock) / draw with an invalid repeat, cached or style argument /
 ImageIterator(...) / next / seek(p) / close / drop + gc.collect() / image.close / image.seek /
